@@ -27,7 +27,9 @@ completely.  When model and implementation agree that a claimed root is unreadab
   read <v> <t> <h> <contents|!err>                 full read-back under a root the DB claims to have
 `res` is `ok`, an API error name (`Err.toString`), `restricted` (a backend-specific refusal that
 the API allows: the operation must then have had no effect) or `src_unreadable`.
-Answers: `ok` or `DIVERGE <signature> <detail>`; after a divergence every line is answered `skip`.
+Answers: `ok` or `DIVERGE <signature> <detail>`. Divergences in observations and refused operations are
+reported and checking continues (the contract state follows the implementation); after any other
+divergence every line is answered `skip`.
 -/
 namespace OasisModel.NodeDB.Driver
 open OasisModel.Proto OasisModel.NodeDB
@@ -58,6 +60,10 @@ def sortRoots (l : List Root) : List Root := l.mergeSort rootLe
 structure SpecSt where
   s : Spec.St := Spec.init
   dead : Bool := false
+  /-- roots built (directly or indirectly) on a discarded root the backend still claimed -/
+  tainted : List Root := []
+  /-- roots already reported unreadable / foreign (a commit from them may fail without a new report) -/
+  bad : List Root := []
 
 def errNames (l : List Err) : String := ",".intercalate (l.map Err.toString)
 
@@ -77,6 +83,9 @@ def judge (res : String) (must may : List Err) : Except String Bool :=
 def specStep (st : SpecSt) (line : String) : SpecSt × String :=
   if st.dead then (st, "skip") else
   let fail (msg : String) : SpecSt × String := ({ st with dead := true }, "DIVERGE " ++ msg)
+  -- a divergence after which the contract state is still meaningful (an observation, or an
+  -- operation the implementation refused): reported, and checking continues
+  let soft (msg : String) : SpecSt × String := (st, "DIVERGE " ++ msg)
   let s := st.s
   match words line with
   | ["commit", t, v, sv, sh, h, res, c] =>
@@ -86,12 +95,12 @@ def specStep (st : SpecSt) (line : String) : SpecSt × String :=
       let new : Root := { ver := v, typ := t, hash := h }
       if res == "src_unreadable" then
         -- the tree could not even be built from the source root: fine iff the source is not a present root
-        if sh != 0 && (Spec.read s old).isNone then (st, "ok")
-        else fail s!"src-unreadable source root {showRoot old} is present but could not be read"
+        if sh != 0 && ((Spec.read s old).isNone || st.bad.contains old) then (st, "ok")
+        else soft s!"src-unreadable source root {showRoot old} is present but could not be read"
       else if res.startsWith "panic" then fail s!"panic commit {res}"
       else
       match judge res (Spec.commitErrs s old new) (Spec.commitMayErrs s old new) with
-      | .error e => fail s!"commit-{e}"
+      | .error e => if res == "ok" then fail s!"commit-{e}" else soft s!"commit-{e}"
       | .ok false => (st, "ok")
       | .ok true =>
         match Spec.commit s old new c with
@@ -100,7 +109,10 @@ def specStep (st : SpecSt) (line : String) : SpecSt × String :=
           -- content addressing: the same (type,hash) must always carry the same contents
           match s.present.find? (fun e => e.1.hash == h && e.2 != c) with
           | some e => fail s!"hash-collision hash {h} stands for `{e.2}` and `{c}`"
-          | none => ({ st with s := s' }, "ok")
+          | none =>
+            let discardedSrc := sh != 0 && Spec.finalizedGE s sv && !Spec.retained s old
+            let t := if discardedSrc || st.tainted.contains old then new :: st.tainted else st.tainted
+            ({ st with s := s', tainted := t }, "ok")
     | _, _, _, _, _ => fail "bad-op"
   | ["finalize", v, chosen, res, keep] =>
     match v.toNat? with
@@ -110,7 +122,7 @@ def specStep (st : SpecSt) (line : String) : SpecSt × String :=
     | some chosen, some keep =>
       if res.startsWith "panic" then fail s!"panic finalize {res}" else
       match judge res (Spec.finalizeErrs s v chosen) [] with
-      | .error e => fail s!"finalize-{e}"
+      | .error e => if res == "ok" then fail s!"finalize-{e}" else soft s!"finalize-{e}"
       | .ok false => (st, "ok")
       | .ok true =>
         if !Spec.keepOk s v chosen keep then
@@ -125,7 +137,7 @@ def specStep (st : SpecSt) (line : String) : SpecSt × String :=
     | some v =>
       if res.startsWith "panic" then fail s!"panic prune {res}" else
       match judge res (Spec.pruneErrs s v) [] with
-      | .error e => fail s!"prune-{e}"
+      | .error e => if res == "ok" then fail s!"prune-{e}" else soft s!"prune-{e}"
       | .ok false => (st, "ok")
       | .ok true =>
         match Spec.prune s v with
@@ -136,15 +148,15 @@ def specStep (st : SpecSt) (line : String) : SpecSt × String :=
     match earliest.toNat?, parseVTHs roots with
     | some e, some roots =>
       let lat := match s.last with | some l => toString l | none => "-"
-      if lat != latest then fail s!"latest-mismatch impl={latest} spec={lat}"
-      else if e != s.earliest then fail s!"earliest-mismatch impl={e} spec={s.earliest}"
+      if lat != latest then soft s!"latest-mismatch impl={latest} spec={lat}"
+      else if e != s.earliest then soft s!"earliest-mismatch impl={e} spec={s.earliest}"
       else
         let want := sortRoots ((s.present.map (·.1)).filter (fun r => decide (s.earliest ≤ r.ver)))
         let got := sortRoots roots
         match s.fin.find? (fun r => !got.contains r) with
-        | some r => fail s!"finalized-root-missing {showRoot r} not in GetRootsForVersion"
+        | some r => soft s!"finalized-root-missing {showRoot r} not in GetRootsForVersion"
         | none =>
-          if got != want then fail s!"roots-mismatch impl={got.map showRoot} spec={want.map showRoot}"
+          if got != want then soft s!"roots-mismatch impl={got.map showRoot} spec={want.map showRoot}"
           else (st, "ok")
     | _, _ => fail "bad-op"
   | ["has", v, t, h, b] =>
@@ -154,24 +166,26 @@ def specStep (st : SpecSt) (line : String) : SpecSt × String :=
       let want := Spec.hasRoot s r
       let got := b == "1"
       if got == want then (st, "ok")
-      else if Spec.retained s r then fail s!"finalized-root-missing HasRoot({showRoot r}) = false"
-      else fail s!"hasroot-mismatch HasRoot({showRoot r}) impl={got} spec={want}"
+      else if Spec.retained s r then soft s!"finalized-root-missing HasRoot({showRoot r}) = false"
+      else soft s!"hasroot-mismatch HasRoot({showRoot r}) impl={got} spec={want}"
     | _, _, _ => fail "bad-op"
   | ["read", v, t, h, c] =>
     match v.toNat?, t.toNat?, h.toNat? with
     | some v, some t, some h =>
       let r : Root := { ver := v, typ := t, hash := h }
       let kind := if Spec.retained s r then "finalized" else
+        if st.tainted.contains r then "discarded-derived" else
         if Spec.finalizedGE s v then "discarded" else "pending"
+      let soft (msg : String) : SpecSt × String := ({ st with bad := r :: st.bad }, "DIVERGE " ++ msg)
       match Spec.read s r with
       | none =>
-        if h == 0 then (if c == "-" then (st, "ok") else fail s!"foreign-contents empty root {showRoot r} reads `{c}`")
+        if h == 0 then (if c == "-" then (st, "ok") else soft s!"foreign-contents empty root {showRoot r} reads `{c}`")
         else if c.startsWith "!" then (st, "ok")
-        else fail s!"read-of-absent-root {showRoot r} is not a root of the contract but reads `{c}`"
+        else soft s!"read-of-absent-root {showRoot r} is not a root of the contract but reads `{c}`"
       | some want =>
         if c == want then (st, "ok")
-        else if c.startsWith "!" then fail s!"{kind}-root-unreadable {showRoot r}: {c}"
-        else fail s!"foreign-contents-{kind} root {showRoot r} reads `{c}`, committed `{want}`"
+        else if c.startsWith "!" then soft s!"{kind}-root-unreadable {showRoot r}: {c}"
+        else soft s!"foreign-contents-{kind} root {showRoot r} reads `{c}`, committed `{want}`"
     | _, _, _ => fail "bad-op"
   | [] => (st, "ok")
   | _ => fail "bad-op"
@@ -247,16 +261,18 @@ def badgerStep (st : BSt) (line : String) : BSt × String :=
         | some a => fail s!"hash-collision node {a.1} has two different child lists"
         | none =>
           let kids' := st.kids ++ added.filter (fun a => !st.kids.any (fun k => k.1 == a.1))
+          let kidsV' := st.kidsV ++ addedV.filter (fun a => !st.kidsV.any (fun k => k.1 == a.1))
           -- the hypotheses of the theorems about what a tree hands to a batch (checked on the real tree):
-          let clOld := if sh == 0 then [] else closure kids' sh
+          -- the old tree including its embedded leaves: their separately stored copies are what a
+          -- derived tree points to when an embedded leaf becomes an ordinary child
+          let clOld := if sh == 0 then [] else closure kidsV' sh
           let clNew := if h == 0 then [] else closure kids' h
           let addedH := added.map (·.1)
           if !clNew.all (fun n => clOld.contains n || addedH.contains n) then
             fail s!"commit-hyp new tree has a node that is neither inherited nor put: new={clNew} old={clOld} added={addedH}"
           else if !removed.all (fun n => !clNew.contains n || addedH.contains n) then
             fail s!"commit-hyp removed node still in the new tree without being put again: removed={removed} new={clNew}"
-          else ({ st with s := s', kids := kids',
-                          kidsV := st.kidsV ++ addedV.filter (fun a => !st.kidsV.any (fun k => k.1 == a.1)) }, "ok")
+          else ({ st with s := s', kids := kids', kidsV := kidsV' }, "ok")
     | _, _, _, _, _, _, _ => fail "bad-op"
   | ["finalize", v, chosen, res] =>
     match v.toNat? with
